@@ -292,6 +292,9 @@ impl Database {
         if wal_enabled {
             let dirty_table_ids = self.shared.dirty_tracker.all_dirty_table_ids();
 
+            #[cfg(turdb_verif)]
+            crate::verif_hooks::note_commit_payload(self, 0);
+
             if !dirty_table_ids.is_empty() {
                 let total_dirty_pages: u64 = dirty_table_ids
                     .iter()
@@ -299,6 +302,8 @@ impl Database {
                     .sum();
 
                 if total_dirty_pages as usize > COMMIT_BATCH_SIZE {
+                    #[cfg(turdb_verif)]
+                    crate::verif_hooks::note_commit_payload(self, u64::MAX);
                     self.execute_chunked_wal_commit(&dirty_table_ids)?;
                 } else {
                     self.execute_small_commit(&dirty_table_ids)?;
@@ -351,6 +356,9 @@ impl Database {
 
         drop(lookup);
         drop(file_manager_guard);
+
+        #[cfg(turdb_verif)]
+        crate::verif_hooks::note_commit_payload(self, payload.len() as u64);
 
         if self.shared.group_commit_queue.is_enabled() {
             match self
